@@ -87,6 +87,8 @@ type Record struct {
 	RegistryTotal int64            `json:"registry_calls"`
 	AtMS          int64            `json:"at_ms"`
 	RouteHits     map[string]int64 `json:"route_hits"`
+	Skipped       int64            `json:"skipped_after_400_let_through"`
+	Primers       int64            `json:"primers"`
 	TotalMS       int64            `json:"total_ms"`
 	ReadyMS       int64            `json:"ready_ms"`
 }
@@ -121,7 +123,7 @@ func runProbe(testbin, scratch string, cfg Config) *ProbeResult {
 		return res
 	}
 	lf, _ := os.Create(logPath)
-	cmd := exec.Command(testbin, "-test.run", "^TestVerifC20$", "-test.count=1", "-test.timeout=120s")
+	cmd := exec.Command(testbin, "-test.run", "^TestVerifC20$", "-test.count=1", "-test.timeout=600s")
 	cmd.Dir = dir
 	cmd.Env = append(os.Environ(), "VERIF_C20_CONFIG="+cfgPath, "VERIF_C20_OUT="+outPath)
 	cmd.Stdout, cmd.Stderr = lf, lf
@@ -301,6 +303,9 @@ func main() {
 			ev.Fatal("probe %s did not complete: %s (exit: %v)\n--- log tail ---\n%s", pr.Cfg.Name, pr.Fatal, pr.ExitErr, pr.LogTail)
 		}
 		judge(r, pr, walked, walkedTpl, abandoned)
+		if pr.End.Skipped > 0 {
+			r.Cap(fmt.Sprintf("probe %s: more than 400 requests that must be rejected were let through; the remaining %d of that phase were not sent", pr.Cfg.Name, pr.End.Skipped))
+		}
 		modeRoutes[pr.Cfg.Mode] = len(pr.Header.Routes)
 		for _, p := range pr.Header.ListenPorts {
 			if p != pr.Header.HTTPPort && p != pr.Header.DBPort {
@@ -310,7 +315,7 @@ func main() {
 		for _, p := range pr.Header.MuxPatterns {
 			muxPatterns[p] = true
 		}
-		totalReqs += int64(len(pr.Reqs))
+		totalReqs += int64(len(pr.Reqs)) + pr.End.Primers
 		for _, rr := range pr.Reruns {
 			totalReqs += int64(len(rr))
 		}
@@ -451,6 +456,10 @@ func replayConfig(path string) Config {
 	c.Variants = []Variant{v}
 	o := d.Replay.Only
 	c.Only = &o
+	if o.Via == "after" {
+		// history phase: the request is preceded by one with the right credentials
+		c.Variants = append(c.Variants, Variant{ID: "right", Header: "Basic " + b64(c.Login+":"+c.Password), Phase: "allow", Combos: []int{0}})
+	}
 	return c
 }
 
@@ -466,6 +475,13 @@ func partialDecodeRight(h, login, pass string) bool {
 }
 
 // headerNames("Origin=http://evil & Access-Control-Request-Method=GET") = "Origin+Access-Control-Request-Method"
+func viaOf(rec *Record) string {
+	if rec.Phase == "after" {
+		return "after" // replay: prime with the right credentials first
+	}
+	return rec.Via
+}
+
 func headerNames(combo string) string {
 	var names []string
 	for _, p := range strings.Split(combo, " & ") {
@@ -532,7 +548,7 @@ func judge(r *ev.Run, pr *ProbeResult, walked, walkedTpl, abandoned map[string]b
 		}
 		v.Combos, v.TCPCombos, v.ProbeCombos = []int{0}, []int{0}, []int{0}
 		return map[string]any{"config": c, "variant": v,
-			"only":     Only{rec.Path, rec.Method, rec.Variant, rec.Combo, rec.Via},
+			"only":     Only{rec.Path, rec.Method, rec.Variant, rec.Combo, viaOf(rec)},
 			"observed": rec}
 	}
 	tplOf := func(rec *Record) string {
@@ -546,7 +562,7 @@ func judge(r *ev.Run, pr *ProbeResult, walked, walkedTpl, abandoned map[string]b
 	minimalBypass := map[string]string{} // route|method|variant -> smallest header combination with which it is let through
 	for i := range pr.Reqs {
 		rec := &pr.Reqs[i]
-		if rec.T == "req" && rec.Phase != "probe" && rec.Phase != "allow" {
+		if rec.T == "req" && rec.Phase != "probe" && rec.Phase != "allow" && rec.Phase != "after" {
 			k := tplOf(rec) + " " + rec.Method + " " + rec.Variant
 			if rec.Combo == "(none)" && rec.DHandler == 0 {
 				rejectedPlain[k] = true
@@ -667,6 +683,9 @@ func judge(r *ev.Run, pr *ProbeResult, walked, walkedTpl, abandoned map[string]b
 				r.Outcome(v.Class + "->LET_THROUGH")
 				class := "auth_accepts_" + v.Family
 				switch {
+				case rec.Phase == "after" && rejectedPlain[tpl+" "+rec.Method+" "+rec.Variant]:
+					// rejected on a process that had not yet served the right credentials, let through right after them
+					class = "credential_check_depends_on_earlier_requests:" + v.Family
 				case rec.Combo != "(none)" && rejectedPlain[tpl+" "+rec.Method+" "+rec.Variant]:
 					// the same request without the other headers is rejected: those headers switch the check off
 					class = "credential_check_bypassed_by_request_headers:" + headerNames(minimalBypass[tpl+" "+rec.Method+" "+rec.Variant])
